@@ -682,7 +682,7 @@ pub fn run(ctx: &Ctx) -> i32 {
     let all = sets::sets();
     let checked = ctx.flavour == "checked";
     let variants: u64 = match ctx.tier {
-        Tier::Quick => 3,
+        Tier::Quick => if ctx.scale < 100 { 1 } else { 3 },
         Tier::Thorough => ctx.scaled(if checked { 4 } else { 16 }),
     };
     let histories: u64 = match ctx.tier {
